@@ -24,13 +24,24 @@ TWO_Q = ["CNOT", "CZ", "ISWAP", "SWAP", "XX", "YY", "ZZ", "XY", "MS", "CPHASE"]
 
 @st.composite
 def cases(draw, tier):
-    n = draw(st.integers(1, 4 if tier == "quick" else 5))
-    det = [draw(st.sampled_from([0, 1, None])) for _ in range(n)]
+    n = draw(st.sampled_from([1, 2, 3, 3, 4, 4] if tier == "quick" else [1, 2, 3, 4, 4, 5, 5]))
+    det = [draw(st.sampled_from([0, 1, None, None, None])) for _ in range(n)]
     free = [q for q in range(n) if det[q] is None]
     ops = [{"g": "X", "p": [], "mods": [], "q": [q]} for q in range(n) if det[q] == 1]
     for _ in range(draw(st.integers(0, 5))):
         if not free:
             break
+        if len(free) >= 3 and draw(st.integers(0, 2)) == 0:
+            # three-qubit gates on arbitrarily ordered (incl. cyclically permuted) index tuples
+            kind = draw(st.sampled_from(["ccx", "cswap", "ccry", "custom3", "ciswap"]))
+            q = list(draw(st.permutations(free))[:3])
+            g = {"ccx": {"g": "X", "p": [], "mods": [["c", 2]]}, "cswap": {"g": "SWAP", "p": [], "mods": [["c", 1]]},
+                 "ccry": {"g": "RY", "p": [draw(cgen.angles())], "mods": [["c", 2]]},
+                 "custom3": {"g": "custom", "k": 3, "mseed": draw(st.integers(0, 1000)), "p": [], "mods": []},
+                 "ciswap": {"g": "ISWAP", "p": [], "mods": [["c", 1]]}}[kind]
+            g["q"] = q
+            ops.append(g)
+            continue
         if len(free) >= 2 and draw(st.booleans()):
             nm = draw(st.sampled_from(TWO_Q))
             q = draw(st.permutations(free))[:2]
@@ -134,6 +145,10 @@ def oracle(spec):
     cl = ["small_sample_branch", "large_sample_branch"]
     if any(len(o["q"]) == 2 for o in spec["ops"]):
         cl.append("entangled")
+    if any(len(o["q"]) == 3 for o in spec["ops"]):
+        cl.append("three_qubit_gate")
+        if any(len(o["q"]) == 3 and o["q"] != sorted(o["q"]) and o["q"] != sorted(o["q"], reverse=True) for o in spec["ops"]):
+            cl.append("three_qubit_gate_cyclic_order")
     return {"classes": cl, "nontrivial": nontrivial}
 
 
